@@ -29,6 +29,24 @@ type Tagged struct {
 	b fp.Option[string] ` + "`json:\"beta,omitempty\"`" + `
 }
 
+// every field exported: the value type and its Mutable twin have the same layout
+// @fp.Value
+// @fp.Json
+type AllPub struct {
+	ID    int
+	Name  string
+	Count fp.Option[int]
+	Tags  []int ` + "`json:\"tags,omitempty\"`" + `
+}
+
+// every field private
+// @fp.Value
+// @fp.Json
+type AllPriv struct {
+	id    int
+	count fp.Option[int]
+}
+
 // @fp.Value
 // @fp.Json
 type Nest struct {
@@ -162,6 +180,9 @@ func VH_c15_struct_roundtrip() {
 
 func VH_c15_struct_arbitrary_input() {
 	in := []byte(zz.Str("in", 3))
+	if zz.Bool("partial.document") {
+		in = []byte("{\"Pub\":\"q\",\"Pub\":5}")
+	}
 	y := mkRec("y")
 	before := y
 	err := y.UnmarshalJSON(in)
@@ -170,6 +191,56 @@ func VH_c15_struct_arbitrary_input() {
 	}
 	var np *Rec
 	zz.Assert(np.UnmarshalJSON(in) != nil, "generated UnmarshalJSON on a nil receiver returns an error")
+}
+
+func mkAllPub(t string) AllPub {
+	return AllPub{ID: zz.Int(t + ".id"), Name: zz.Str(t+".name", 1), Count: mkOpt(t + ".count"), Tags: zz.SliceInt(t+".tags", 1, 0, 0)}
+}
+
+func eqAllPub(a, b AllPub) bool {
+	if a.ID != b.ID || a.Name != b.Name || !optEq(a.Count, b.Count) || len(a.Tags) != len(b.Tags) {
+		return false
+	}
+	for i := range a.Tags {
+		if a.Tags[i] != b.Tags[i] {
+			return false
+		}
+	}
+	return true
+}
+
+func VH_c15_allpublic_struct() {
+	x := mkAllPub("x")
+	b, err := x.MarshalJSON()
+	y := mkAllPub("y")
+	err2 := y.UnmarshalJSON(b)
+	zz.Assert(err == nil && err2 == nil && eqAllPub(y, x), "Unmarshal(Marshal(x)) = x for an all-public @fp.Json struct")
+	in := []byte(zz.Str("in", 3))
+	if zz.Bool("partial.document") {
+		// a document that real encoding/json rejects only after it has decoded an earlier member
+		in = []byte("{\"ID\":9,\"Name\":\"q\",\"ID\":\"not a number\"}")
+	}
+	z := mkAllPub("z")
+	before := z
+	if z.UnmarshalJSON(in) != nil {
+		zz.Assert(eqAllPub(z, before), "all-public struct: UnmarshalJSON leaves the target unchanged on error")
+	}
+	var np *AllPub
+	zz.Assert(np.UnmarshalJSON(in) != nil, "all-public struct: nil receiver returns an error")
+}
+
+func VH_c15_allprivate_struct() {
+	x := AllPriv{id: zz.Int("x.id"), count: mkOpt("x.count")}
+	b, err := x.MarshalJSON()
+	y := AllPriv{id: zz.Int("y.id"), count: mkOpt("y.count")}
+	err2 := y.UnmarshalJSON(b)
+	zz.Assert(err == nil && err2 == nil && y.id == x.id && optEq(y.count, x.count), "Unmarshal(Marshal(x)) = x for an all-private @fp.Json struct")
+	in := []byte(zz.Str("in", 3))
+	z := AllPriv{id: zz.Int("z.id"), count: mkOpt("z.count")}
+	before := z
+	if z.UnmarshalJSON(in) != nil {
+		zz.Assert(z.id == before.id && optEq(z.count, before.count), "all-private struct: UnmarshalJSON leaves the target unchanged on error")
+	}
 }
 
 func VH_c15_tagged_and_nested() {
